@@ -9,7 +9,7 @@ pub fn format_stub(_args: core::fmt::Arguments<'_>) -> String {
 }
 
 /// Allocation bound for the allocation stubs below (elements).
-pub const ALLOC_BOUND: usize = 8;
+pub const ALLOC_BOUND: usize = 4;
 
 /// `<[T]>::to_vec`: symbolic-size allocation is the cost driver (DESIGN P3).  The stub asserts the
 /// length bound (exceeding it is a reported failure, not an assumption) and copies into a vector
